@@ -8,9 +8,9 @@ ID = "C08"
 LEVEL = "exploration"
 RULE = ("Hypothesis-generated histories (<=12 ops) over two sources and one target with x, y (Number), t (String), lst (List, "
         "nested_refs), d (Dict, nested_refs): references of every kind (Parameter, bind of one or two parameters, depends "
-        "function, rx expression, nested list/dict) given in the constructor or assigned later; source updates (valid and "
+        "function, dependent method depending on another dependent method, rx expression, nested list/dict, a bound function that skips - raises Skip - for some source values) given in the constructor or assigned later; source updates (valid and "
         "occasionally invalid for the target), source batches, relinks, overrides with plain values, `with target.param.update()` "
-        "contexts with source updates inside; oracle = closure model of each live link evaluated on model source values, compared "
+        "contexts over one or two names given as keywords, a mapping or both, with source updates inside; oracle = closure model of each live link evaluated on model source values, compared "
         "after every op, overridden names keep their plain value for good, and a census of the internal watchers the target "
         "keeps on each source (none when no live link depends on that source). Non-trivial = >=2 linked parameters and a "
         "relink/override of one of them followed by updates of the old and new sources; or a link made after construction; or a "
@@ -29,6 +29,8 @@ _tn = st.sampled_from(TN)
 @st.composite
 def _link(draw):
     n = draw(_tn)
+    if n in ("x", "y") and draw(st.integers(0, 4)) == 0:
+        return [n, draw(rw.skip_ref)]
     return [n, draw(rw.ref_for(n))]
 
 
@@ -50,7 +52,12 @@ def _op(draw, depth=0):
         n = draw(_tn)
         return ["override", n, draw(st.integers(0, 9))]
     n = draw(st.sampled_from(["x", "y", "t"]))
-    return ["updctx", n, draw(st.integers(0, 9)), draw(st.lists(_op(depth=1), max_size=3))]
+    op = ["updctx", n, draw(st.integers(0, 9)), draw(st.lists(_op(depth=1), max_size=3))]
+    if draw(st.booleans()):
+        # a second name in the same call, and the ways update() accepts its arguments
+        n2 = draw(st.sampled_from([m for m in ("x", "y", "t") if m != n]))
+        op += [n2, draw(st.integers(0, 9)), draw(st.sampled_from(["kw", "mapping", "mixed", "mixed_rev"]))]
+    return op
 
 
 @st.composite
@@ -68,6 +75,8 @@ def _plain(n, k):
 
 
 def _valid(n, v):
+    if v is rw.SKIP:
+        return True           # a skipped evaluation assigns nothing, so it cannot be invalid
     if n in ("x", "y"):
         return isinstance(v, (int, float)) and -1000 <= v <= 1000
     return True
@@ -108,8 +117,8 @@ def execute(case):
             if n in stale:
                 continue
             want = fn(mv)
-            if not _valid(n, want):
-                stale.add(n)
+            if want is rw.SKIP or not _valid(n, want):
+                stale.add(n)          # nothing to mirror right now (skipped / invalid): judged again after the next update
                 continue
             got = getattr(tgt, n)
             if got != want:
@@ -134,6 +143,8 @@ def execute(case):
             if (i, pn) in deps:
                 if n in invalid_for or invalid_for:
                     stale.add(n)       # one rejected target aborts the whole propagation: judge again after the next update
+                elif fn(mv) is rw.SKIP:
+                    stale.add(n)       # the reference produced no value: the target keeps what it has
                 elif not unchanged:
                     stale.discard(n)   # (an assignment of the value the source already has announces nothing)
         if hist["relinked"]:
@@ -158,7 +169,7 @@ def execute(case):
             changed = {p for p, v in (("v", op[2]), ("w", op[3])) if old_vals[p] != v}
             for n, (fn, deps) in links.items():
                 if any(si == i and p in ("v", "w") for si, p in deps):
-                    if bad:
+                    if bad or fn(mv) is rw.SKIP:
                         stale.add(n)
                     elif any(si == i and p in changed for si, p in deps):
                         stale.discard(n)
@@ -176,6 +187,8 @@ def execute(case):
             links[n] = (fn, deps)
             plain.pop(n, None)
             stale.discard(n)
+            if want is rw.SKIP:
+                marks.add("link_made_while_reference_skips")
             hist["relinked"] = True
             marks.add("link_made_later")
             if spec[0] in ("nlist", "ndict"):
@@ -191,37 +204,51 @@ def execute(case):
             stale.discard(n)
             plain[n] = v
         elif k == "updctx":
-            n, v = op[1], _plain(op[1], op[2])
-            was_link = links.get(n)
-            was_plain = plain.get(n, None)
-            before = getattr(tgt, n)
-            cm = tgt.param.update(**{n: v})
+            pairs = [(op[1], _plain(op[1], op[2]))]
+            form = "kw"
+            if len(op) > 4:
+                pairs.append((op[4], _plain(op[4], op[5])))
+                form = op[6]
+                marks.add("update_context_form:" + form)
+            saved = {n: (links.get(n), plain.get(n, None), getattr(tgt, n)) for n, _v in pairs}
+            if form == "kw":
+                cm = tgt.param.update(**dict(pairs))
+            elif form == "mapping":
+                cm = tgt.param.update(dict(pairs))
+            elif form == "mixed":
+                cm = tgt.param.update(dict(pairs[:1]), **dict(pairs[1:]))
+            else:
+                cm = tgt.param.update(dict(pairs[1:]), **dict(pairs[:1]))
             cm.__enter__()
-            if getattr(tgt, n) != v:
-                res.fail("C08.update_context_value", f"{tag}: inside the context {n} is {getattr(tgt, n)!r}")
-            links.pop(n, None)
-            hold_plain = plain.pop(n, None)
-            plain[n] = v
+            hold_plain = {}
+            for n, v in pairs:
+                if getattr(tgt, n) != v:
+                    res.fail("C08.update_context_value", f"{tag}: inside the context {n} is {getattr(tgt, n)!r}")
+                links.pop(n, None)
+                hold_plain[n] = plain.pop(n, None)
+                plain[n] = v
             for ch in op[3]:
                 run(ch, depth + 1)
                 compare(f"{ch!r} inside {tag}")
-            plain.pop(n, None)
+            for n, _v in pairs:
+                plain.pop(n, None)
             try:
                 cm.__exit__(None, None, None)
             except ValueError:
-                # the link cannot be restored because its reference currently resolves to an invalid value: no claim
-                if was_link is not None and not _valid(n, was_link[0](mv)):
+                # a link cannot be restored because its reference currently resolves to an invalid value: no claim
+                if any(wl is not None and not _valid(n, wl[0](mv)) for n, (wl, _p, _b) in saved.items()):
                     res.dontcare += 1
                     return "abort"
                 raise
-            if hold_plain is not None:
-                plain[n] = hold_plain
-                if getattr(tgt, n) != before:
-                    res.fail("C08.update_context_restore", f"{tag}: {n} was {before!r} before the context and is "
-                                                           f"{getattr(tgt, n)!r} after it")
-            if was_link is not None:
-                links[n] = was_link     # the link is back: the name mirrors its reference again (checked by compare)
-                stale.discard(n)
+            for n, (was_link, _was_plain, before) in saved.items():
+                if hold_plain[n] is not None:
+                    plain[n] = hold_plain[n]
+                    if getattr(tgt, n) != before:
+                        res.fail("C08.update_context_restore", f"{tag}: {n} was {before!r} before the context and is "
+                                                               f"{getattr(tgt, n)!r} after it")
+                if was_link is not None:
+                    links[n] = was_link     # the link is back: the name mirrors its reference again (checked by compare)
+                    stale.discard(n)
             marks.add("update_context")
         return None
 
